@@ -169,6 +169,9 @@ fn main() {
     if args.len() >= 2 && args[0] == "--follow-child" {
         std::process::exit(follow_child::child_main(&args[1]));
     }
+    if args.len() >= 2 && args[0] == "--parse-probe" {
+        std::process::exit(props::c14::parse_probe_main(&args[1]));
+    }
     if args.len() >= 2 && args[0] == "--run-job" {
         std::process::exit(props::c18::run_job_main(&args[1]));
     }
